@@ -25,7 +25,7 @@ def ack_kind(data):
     return "?"
 
 
-def state_delta(e):
+def state_delta(e, p=None):
     """(outstanding NF, total_sent NF, problem) of a CHANNEL_STATE write relative to the stored entry.
     The stored entry may be absent for increases (unwrap_or_default) but must be present for reductions."""
     if not is_rmw(e) or e.op == "remove":
@@ -33,7 +33,10 @@ def state_delta(e):
     base, fields = update_base(e.value)
     if base == ("vfield", e.old, "Some", "0"):
         kind = "present"
-    elif base == ("unwrap_or", e.old, ("default", "?")):
+    elif base == ("unwrap_or", e.old, ("default", "?")) or \
+            (base[0] == "default" and e.old is not None and p is not None and any(c[0] == e.old and c[1] == "None" for c in p.conds)):
+        # the stored entry or a fresh default: spelled unwrap_or_default(), or `None => ChannelState::default()` on the
+        # paths that decided the entry absent
         kind = "or-default"
     else:
         return None, None, "channel state not derived from the stored entry: %s" % show(e.value)[:200]
